@@ -161,6 +161,7 @@ func init() {
 			// a session id recycled while its old session is still being removed
 			s2job("c07-lastleave-vs-create", 2, 300),
 			s2job("c07-create-vs-create", 1, 300),
+			s2job("c07-join-lastleave-create", 1, 300),
 		}
 	}, check.PropInfo{
 		Rule:        s1Rule + " C03: the reference model has no cross-session channel by construction, so anything a member of one session receives because of traffic in another, or any state change there, is a mismatch; families with coinciding per-session ids, raw ids valid only in the other session, unjoined connections and reused session ids.",
@@ -176,6 +177,11 @@ func init() {
 			p, _ := json.Marshal(c17Params{Shard: i, Shards: nsh})
 			jobs = append(jobs, check.Job{Kind: "c17", Name: "IN:flag-subsets", Params: p})
 		}
+		// what keeps a connection alive must not depend on the flags: a silent client is
+		// disconnected after the idle timeout whether or not relays are delivered to it
+		// (the flag-free run of C08's idle scenarios at the peer point)
+		pidle, _ := json.Marshal(robustParams{Point: "peer", Set: "idle"})
+		jobs = append(jobs, check.Job{Kind: "c08", Name: "IN:idle@peer", Params: pidle, CrashIsViolation: true})
 		if tier == "thorough" {
 			for _, f := range allFlags {
 				jobs = append(jobs, s1flagjob("entities", 6, []string{f}), s1flagjob("components", 5, []string{f}))
